@@ -147,6 +147,76 @@ SameCfgSets(ops) == \A i, j \in DOMAIN ops : \A n \in ChainNames(ops[i]) \cap Ch
 \* (an ensemble of which some operand has only part of the replicas makes the split matter unless the lists agree)
 SplitIndependent(ops) == SameReplicaSets(ops) \/ SameCfgSets(ops)
 
+\* ------------------------------------------------------------------ Derive as an operation returning an observable
+\* e: the function as the pair (value at the central values, gradient there); rv(n): value of f at the replica-mean arguments
+DeriveObs(ops, g, val, rv(_)) ==
+  LET ch == DeriveChains(ops, g)
+      chains == [k \in DOMAIN ch |-> [name |-> ch[k].name, idl |-> ch[k].idl, isrange |-> ch[k].isrange, intcfg |-> TRUE,
+                                       shape |-> Len(ch[k].idl), d |-> ch[k].d, r |-> rv(ch[k].name)]]
+      cn == SortNames(AllCovNames(ops))
+      cov == [k \in DOMAIN cn |-> [name |-> cn[k],
+                                   cov |-> CovOf(ops[CHOOSE i \in DOMAIN ops : cn[k] \in CovNames(ops[i])], cn[k]).cov,
+                                   grad |-> DeriveCovGrad(ops, g, cn[k])]]
+  IN [chains |-> chains, cov |-> cov, value |-> val, vkind |-> "float",
+      names |-> [k \in DOMAIN chains |-> chains[k].name] \o [k \in DOMAIN cov |-> cov[k].name], namesok |-> TRUE,
+      N |-> FoldSeq(LAMBDA c, acc : acc + c.shape, 0, chains),
+      rew |-> \E i \in DOMAIN ops : ops[i].rew, finite |-> TRUE]
+
+Add2(a, b) == DeriveObs(<<a, b>>, <<"1", "1">>, RAdd(a.value, b.value), LAMBDA n : RAdd(RArgs(<<a, b>>, n)[1], RArgs(<<a, b>>, n)[2]))
+Mul2(a, b) == DeriveObs(<<a, b>>, <<b.value, a.value>>, RMul(a.value, b.value), LAMBDA n : RMul(RArgs(<<a, b>>, n)[1], RArgs(<<a, b>>, n)[2]))
+Div2(a, b) == DeriveObs(<<a, b>>, <<RDiv("1", b.value), RNeg(RDiv(a.value, RSq(b.value)))>>, RDiv(a.value, b.value),
+                        LAMBDA n : RDiv(RArgs(<<a, b>>, n)[1], RArgs(<<a, b>>, n)[2]))
+
+\* ------------------------------------------------------------------ samples, merge, correlate, reweight (property C05)
+\* per-configuration samples of chain c: fluctuation + replica mean
+SamplesOf(c) == [k \in DOMAIN c.d |-> RAdd(c.d[k], c.r)]
+\* the sample of chain c at configuration number cfg
+SampleAt(c, cfg) == RAdd(c.d[IndexOf(c.idl, cfg)], c.r)
+SingleEnsemble(o) == Cardinality(EnsNames(o)) <= 1
+
+\* merge_obs: the observable whose chains are the union of the inputs' chains
+MergeRejects(list) == \/ \E i, j \in DOMAIN list : i # j /\ ChainNames(list[i]) \cap ChainNames(list[j]) # {}
+                      \/ \E i \in DOMAIN list : list[i].cov # <<>>
+                      \/ Cardinality(UNION {EnsNames(list[i]) : i \in DOMAIN list}) > 1
+Merge(list) ==
+  LET all == UNION {{[name |-> c.name, idl |-> c.idl, x |-> SamplesOf(c)] : c \in SeqToSet(list[i].chains)} : i \in DOMAIN list}
+      o == Construct(SetToSeq(all))
+  IN [o EXCEPT !.rew = \E i \in DOMAIN list : list[i].rew]
+
+\* correlate: the observable of the per-configuration products
+CorrelateRejects(a, b) == \/ ~SingleEnsemble(a) \/ ~SingleEnsemble(b)
+                          \/ ChainNames(a) # ChainNames(b)
+                          \/ a.cov # <<>> \/ b.cov # <<>>
+                          \/ \E n \in ChainNames(a) \cap ChainNames(b) : Chain(a, n).idl # Chain(b, n).idl
+Correlate(a, b) ==
+  LET chs == [k \in DOMAIN a.chains |-> LET ca == a.chains[k]  cb == Chain(b, ca.name) IN
+                [name |-> ca.name, idl |-> ca.idl, x |-> [i \in DOMAIN ca.idl |-> RMul(SampleAt(ca, ca.idl[i]), SampleAt(cb, ca.idl[i]))]]]
+  IN [Construct(chs) EXCEPT !.rew = a.rew \/ b.rew]
+
+\* reweight(w, o): <w*o> / <w> on o's configurations (all = TRUE: normalised on all of w's configurations)
+ReweightRejects(w, o) == \/ o.cov # <<>>
+                         \/ ~(ChainNames(o) \subseteq ChainNames(w))
+                         \/ ~SingleEnsemble(o) \/ ~SingleEnsemble(w)
+                         \/ \E n \in ChainNames(o) \cap ChainNames(w) : ~(SeqToSet(Chain(o, n).idl) \subseteq SeqToSet(Chain(w, n).idl))
+Reweight(w, o, all) ==
+  LET num == Construct([k \in DOMAIN o.chains |-> LET co == o.chains[k]  cw == Chain(w, co.name) IN
+                 [name |-> co.name, idl |-> co.idl, x |-> [i \in DOMAIN co.idl |-> RMul(SampleAt(cw, co.idl[i]), SampleAt(co, co.idl[i]))]]])
+      den == IF all THEN w
+             ELSE Construct([k \in DOMAIN o.chains |-> LET co == o.chains[k]  cw == Chain(w, co.name) IN
+                 [name |-> co.name, idl |-> co.idl, x |-> [i \in DOMAIN co.idl |-> SampleAt(cw, co.idl[i])]]])
+  IN [Div2(num, den) EXCEPT !.rew = TRUE]
+
+\* comparison of two observables (observed against expected), fluctuations within tolerance
+ObsClose(o, x, rtol, atol) ==
+  /\ Len(o.chains) = Len(x.chains)
+  /\ \A k \in DOMAIN x.chains :
+       /\ o.chains[k].name = x.chains[k].name /\ o.chains[k].idl = x.chains[k].idl /\ o.chains[k].isrange = x.chains[k].isrange
+       /\ RCloseSeq(o.chains[k].d, x.chains[k].d, rtol, atol)
+       /\ RClose(o.chains[k].r, x.chains[k].r, rtol, atol)
+  /\ RClose(o.value, x.value, rtol, atol)
+  /\ o.N = x.N /\ o.rew = x.rew
+  /\ CovNames(o) = CovNames(x)
+
 \* ------------------------------------------------------------------ comparison of an observed result with the expectation
 DeltaScale(ops) == LET m == [i \in DOMAIN ops |-> FoldSeq(LAMBDA c, acc : RMax(acc, RMaxAbsSeq(c.d)), "0", ops[i].chains)]
                    IN FoldSeq(LAMBDA x, acc : RMax(acc, x), "0", m)
